@@ -30,10 +30,10 @@ ASSUMPTIONS = [
 TIMEOUT = {"quick": 1800, "thorough": 7200}
 MIN_COUNTERS = {"quick": {"assignments_checked": 900, "static_mask_assignments": 20, "string_forms_checked": 30,
                           "system_assignments_checked": 40, "nonzero_pairs_min": 1, "partial_specifications_checked": 15,
-                          "assignments_on_parameter_batches": 200, "system_dyn_default_checks": 4},
+                          "assignments_on_parameter_batches": 200, "system_dyn_default_checks": 4, "edge_of_domain_checks": 6},
                 "thorough": {"assignments_checked": 30000, "static_mask_assignments": 100, "string_forms_checked": 150,
                              "system_assignments_checked": 400, "nonzero_pairs_min": 1, "partial_specifications_checked": 60,
-                             "assignments_on_parameter_batches": 1000, "system_dyn_default_checks": 4}}
+                             "assignments_on_parameter_batches": 1000, "system_dyn_default_checks": 4, "edge_of_domain_checks": 18}}
 GROUPS = ["nn", "theta", "phi", "kappa"]
 TERMS = {"ode": ["dyn_loss", "initial_condition", "observations"],
          "statio": ["dyn_loss", "norm_loss", "boundary_loss", "observations"],
@@ -271,8 +271,51 @@ def run_case(case, rec):
             rec.count("partial_specifications_checked")
             rec.count("assignments_checked")
             check(bits, vals, jac, "partial-specification/%s" % kind, "given=%s code=%d" % ("+".join(ss), code))
+        if kind in ("ode", "statio"):
+            edge_of_domain(rec, kind, pr, rng)
         rec.set_sample(kind=kind, mode="strings", combos=[list(c) for c in pick[:4]])
         return
+
+
+def edge_of_domain(rec, kind, pr, rng):
+    """An unselected (term, group) pair contributes EXACTLY zero - also when that term's own gradient with respect to
+    the group is infinite (a parameter at the edge of its domain: sqrt(sq) at sq = 0, loss value finite)."""
+    import jax
+    import jax.numpy as jnp
+    import jinns
+    from jinns.parameters import Params
+
+    from .. import eqs
+
+    params = Params(nn_params=pr.net.nn_params(), eq_params={"theta": jnp.asarray(0.8), "phi": jnp.asarray(0.3),
+                                                             "kappa": jnp.asarray(-0.6), "sq": jnp.asarray(0.0)})
+    if kind == "ode":
+        Loss, dyn, DKc = jinns.loss.LossODE, eqs.SqrtODE(), jinns.parameters.DerivativeKeysODE
+        batch = jinns.data.ODEBatch(temporal_batch=jnp.asarray(rng.uniform(0, 1, 4)))
+    else:
+        Loss, dyn, DKc = jinns.loss.LossPDEStatio, eqs.SqrtStatio(), jinns.parameters.DerivativeKeysPDEStatio
+        batch = jinns.data.PDEStatioBatch(inside_batch=jnp.asarray(rng.uniform(-1, 2, (4, pr.D))), border_batch=None)
+    mask = Params(nn_params=True, eq_params={"theta": True, "phi": False, "kappa": False, "sq": False})
+    specs = {"default": None, "from_str": guard.call(DKc.from_str, params, dyn_loss="nn_params"),
+             "boolean-tree": guard.call(DKc, params=params, dyn_loss=mask)}
+    for label, dk in specs.items():
+        l = guard.call(Loss, u=pr.net.pinn(), dynamic_loss=dyn, params=params, **({"derivative_keys": dk} if dk is not None else {}))
+        val, g = guard.call(jax.jit(jax.value_and_grad(lambda p: l.evaluate(p, batch)[0])), params)
+        rec.count("edge_of_domain_checks")
+        gs = float(np.asarray(g.eq_params["sq"]))
+        if not np.isfinite(float(val)):
+            rec.inconcl("edge-of-domain loss value is not finite")
+            continue
+        if gs != 0.0:
+            rec.violation("edge-of-domain/%s/unselected-pair-not-exactly-zero/%s" % (kind, label),
+                          "d total / d sq = %r for an unselected parameter whose own gradient is infinite (sqrt at 0); an "
+                          "unselected pair contributes exactly zero" % gs)
+        gn = flat(g.nn_params)
+        if not np.all(np.isfinite(gn)) or not np.any(gn != 0.0):
+            rec.violation("edge-of-domain/%s/network-gradient/%s" % (kind, label),
+                          "network gradient is not finite / is zero although the network parameters are selected")
+        if label == "boolean-tree" and not np.isfinite(float(np.asarray(g.eq_params["theta"]))):
+            rec.violation("edge-of-domain/%s/selected-finite-gradient/%s" % (kind, label), "d total / d theta is not finite")
 
 
 def _loss_kwargs(pr, dk):
